@@ -51,13 +51,28 @@ def run(chk, ctx, scope, oracle_names, n_quick, n_thorough, rules=None, families
     use_model = ctx['model'] is not None
     res = cd.run_cases(cases, oracle_names=oracle_names, timeout=timeout, use_model=use_model)
     dist = collections.Counter(); fam = collections.Counter()
-    notexp = 0; ndis = 0; dis_rule_set = set()
+    notexp = 0; ndis = 0; dis_rule_set = set(); nhang = 0
     stats_tot = collections.Counter()
     for (blt, o), r in zip(cases, res):
         chk.count()
         st = r['status']
         dist[(o['rule'], o.get('arithmetic', 'default'), st.split(':')[0])] += 1
         if st == 'timeout':
+            m = r.get('model')
+            # a count that exceeds the budget under a finite-precision arithmetic while the model of the same case ends:
+            # run it once more with four times the budget before calling it non-termination (rational Meek is legitimately slow)
+            if nhang < 2 and m and r.get('arith') in ('fixed', 'guarded', 'integer') and not m.startswith('MODEL-TIMEOUT') and 'X OutOfFuel' not in m[-20:]:
+                r2 = cd.run_cases([(blt, o)], oracle_names=(), timeout=4 * timeout, use_model=False)[0]
+                if r2['status'] == 'timeout':
+                    nhang += 1
+                    nact = sum(1 for l in m.split("\n") if l.startswith('A '))
+                    ndis += 1; dis_rule_set.add(o['rule'])
+                    ctx['broken'].append("correspondence count/%s: the implementation does not end within %d s, the model ends after %d actions" % (scope, 4 * timeout, nact))
+                    if 'c01' in oracle_names:
+                        chk.violation("c01-nontermination: count still running after %d s; the model of the same election ends after %d actions" % (4 * timeout, nact),
+                                      dict(blt=blt, options=o, oracle='c01', kind='c01-nontermination', status='timeout'),
+                                      signature=dict(kind='c01-nontermination', rule=o['rule'], arithmetic=r.get('arith')))
+                    continue
             notexp += 1; continue
         if st == 'harness-error':
             chk.violation("harness error", dict(blt=blt, options=o, error=r.get('err')), found_input=False); continue
